@@ -71,6 +71,7 @@ LEVEL = {
     "technique": "static analysis: exceptional-successor coverage on a CFG with exception edges",
 }
 LEVEL["decided"] += ' R18.4 shares the enter_context table R14.4 (a manager is registered only after it was entered).'
+LEVEL["decided"] += ' (R18.7) leaving a scoped_iter block closes the real iterator on every path (R08.3, shared).'
 
 # ExitStack's own protocol: it *is* the code that calls __aenter__/__aexit__ by hand
 MANUAL_PROTOCOL_OK = {
